@@ -50,6 +50,14 @@ Fixpoint join_us (parts : list str) : str :=   (* strings.Join(path, "_") *)
 
 Definition ref_eqb (a b : ref) : bool := str_eqb (fst a) (fst b) && str_eqb (snd a) (snd b).
 
+(* checkPropertyNames: no JSON name twice among the properties of one object / oneof *)
+Fixpoint nodup_str (l : list str) : bool :=
+  match l with
+  | [] => true
+  | x :: r => negb (existsb (str_eqb x) r) && nodup_str r
+  end.
+Definition names_unique_b (ps : list prop) : bool := nodup_str (map p_json ps).
+
 Definition kind_eqb (a b : kind) : bool :=
   match a, b with
   | KBool, KBool | KEnum, KEnum | KInt32, KInt32 | KSint32, KSint32 | KUint32, KUint32
@@ -633,6 +641,9 @@ Fixpoint fields_loop (m : msgd) (st : sset) (exs : list exposed) (fs : list fiel
       end)
   end.
 
+(* checkPropertyNames on the members collected for every exposed oneof *)
+Definition exs_names_ok (exs : list exposed) : bool := forallb (fun e => names_unique_b (ex_props e)) exs.
+
 Definition finish_oneofs (st : sset) (exs : list exposed) : sset :=
   fold_left (fun s e => match lookup s (ex_key e) with
                         | Some (Linked (ROneof n d _)) => update s (ex_key e) (Linked (ROneof n d (ex_props e)))
@@ -644,15 +655,19 @@ Definition message_properties (st : sset) (m : msgd) : outcome (sset * list prop
   obind (lift (register_oneofs m st 0 (m_oneofs m))) (fun '(st1, exs) =>
   obind (fields_loop m st1 exs (m_fields m)) (fun '(st2, exs2, ps) =>
   if existsb ex_pending exs2 then Err "oneof has not been added"
+  else if negb (exs_names_ok exs2) then Err "property name is used twice (members of an exposed oneof)"
   else Ok (finish_oneofs st2 exs2, ps))).
 
+(* the checks on the properties of the message itself: checkPropertyNames at the end of messageProperties
+   (fix 07ed85e: an exposed oneof foo_bar next to a field fooBar is an error) and ObjectProperty.checkValid in
+   buildObjectSchema / buildOneofSchema; both are errors, their order is not observable *)
 Definition props_valid (ps : list prop) : bool :=
-  forallb (fun p => match p_json p with [] => false | _ => true end) ps.
+  forallb (fun p => match p_json p with [] => false | _ => true end) ps && names_unique_b ps.
 
 (* buildOneofSchema / buildObjectSchema *)
 Definition build_root (st : sset) (m : msgd) : outcome (sset * root) :=
   obind (message_properties st m) (fun '(st1, ps) =>
-  if negb (props_valid ps) then Err "property has no JSON name"
+  if negb (props_valid ps) then Err "property has no JSON name, or a JSON name is used twice"
   else if is_oneof_wrapper m then Ok (st1, ROneof (snd (msg_key m)) (m_descr m) ps)
   else match flatten_cycle st1 (msg_key m) ps with
        | None => OutOfFuel
